@@ -82,9 +82,11 @@ Definition format_iface (tm : tmap) (ps : pschema) (parent : string) (ss : list 
                                             | PField _ n _ _ => flat_map (fun d => match tm_get tm d n with Some u => [u] | None => [] end) defs
                                             | PNode _ _ => flat_map (fun d => match tm_get tm d "node" with Some u => [u] | None => [] end) defs
                                             | PInline _ _ => [] end) (flatten ss)) [] in
+  (* one fragment per implementation for which something is selected (an empty fragment is not valid: fix) *)
+  let frags := flat_map (fun d => match fields_repr ps ss d with [] => [] | fs => [PInline d fs] end) defs in
   match urls with
-  | [u] => if u =? loc then ss else typename_helper :: map (fun d => PInline d (fields_repr ps ss d)) defs
-  | _ => typename_helper :: map (fun d => PInline d (fields_repr ps ss d)) defs
+  | [u] => if u =? loc then ss else typename_helper :: frags
+  | _ => typename_helper :: frags
   end.
 
 (* convertSelectionSetToNodeQuery / addFieldToNodeQuery / selectionSetHasFieldNamed *)
